@@ -72,14 +72,16 @@ def handleElim (op : String) (j : Json) : Option (Except String Json) :=
     let simp ← getBool (← j.getObjVal? "simplify")
     let ord ← getNats (← j.getObjVal? "order")
     let hs ← getHints j
-    let f (tie : Bool) :=
-      let tac := Elim.tactic theOracle tie (hintFn hs xs)
-      if refine then Elim.elimRefine theOracle (fun _ => tie) tac l ctx xs simp ord
-      else Elim.elimRelax theOracle (fun _ => tie) tac l ctx xs simp ord
+    let g (O : Oracle) (tie : Bool) :=
+      let tac := Elim.tactic O tie (hintFn hs xs)
+      if refine then Elim.elimRefine O (fun _ => tie) tac l ctx xs simp ord
+      else Elim.elimRelax O (fun _ => tie) tac l ctx xs simp ord
+    let f (tie : Bool) := g theOracle tie
     let js (r : Except Err (TL × List Int)) : Json := match r with
       | .ok (ts, used) => Json.mkObj [("ok", jTL ts), ("tactics", jInts used)]
       | .error e => Json.mkObj [("err", jErr e)]
-    pure ((js (f true)).setObjVal! "alt" (js (f false)))
+    pure (((js (f true)).setObjVal! "alt" (js (f false))).setObjVal! "near"
+      (Json.arr #[js (g (oracleShift (-nearD)) true), js (g (oracleShift nearD) false)]))
   | _ => none
 
 end OpsElim
